@@ -15,13 +15,71 @@ func init() {
 		HarnessDef{ID: "H8.1a", Spec: HarnessSpec{Name: "vH_C08_slots", Pkg: "pkg/cipher", LoopBound: 8, TimeoutS: 120, Solver: "cvc5-int"},
 			What:   "saltFromTime/cipherKeyEpoch slot arithmetic: |skew|<=60 s => sender slot among the receiver's three; |skew|>=240 s => not; slots are consecutive multiples of 120 s nearest to the instant",
 			Bounds: "all instants 1970+10min..2^35 s at ns resolution, skew |d| <= 1000 s", Outside: "instants beyond year 3058"},
-		HarnessDef{ID: "H8.1b", Spec: HarnessSpec{Name: "vH_C08_key_agreement", Pkg: "pkg/cipher", LoopBound: 40, TimeoutS: 240, Solver: "cvc5-int", Par: 2},
-			What:   "newBlockCipherList (real saltFromTime + PBKDF2 call + cipher construction): for |skew| <= 60 s the key a sender encrypts with equals one of the three keys the receiver derives, in both directions",
-			Bounds: "32-byte password, all instants/skews as above; SHA-256 and PBKDF2 uninterpreted", Outside: "hash collisions"},
+		HarnessDef{ID: "H8.1b", Spec: HarnessSpec{Name: "vH_C08_key_is_function_of_slot", Pkg: "pkg/cipher", LoopBound: 40, TimeoutS: 120},
+			What:   "newBlockCipherList: key i == PBKDF2(pw, SHA256(BE64(slot_i(t))), 64, 32) for every password and instant (so equal slots give equal keys: with H8.1a, key agreement within 60 s of skew)",
+			Bounds: "32-byte password, all instants; SHA-256/PBKDF2 uninterpreted (decided by term identity plus solver on any difference)", Outside: "hash collisions"},
 	)
+	lb17 := map[string]int{"pdepGeneric": 64, "pextGeneric": 64, "vRefPdep": 64, "vRefPext": 64, "vRefEncodeChunk": 64, "vH_C17_rotation": 300}
+	mx := func(name, id, what string, to int) HarnessDef {
+		return HarnessDef{ID: id, Spec: HarnessSpec{Name: name, Pkg: "pkg/mathext", LoopBound: 64, LoopBounds: lb17, TimeoutS: to}, What: what,
+			Bounds: "all 2^128 (x, mask) pairs at full 64-bit width; loops unwound 64 times with the unwinding assertion proved", Outside: "equality of two functions satisfying the characterisation is a paper induction on popcount(mask)"}
+	}
+	rot := map[string]string{"github.com/enfein/mieru/v3/pkg/protocol.rotateLowEntropyMask": "vStubRotateTable"}
+	rtN := func(name, id string, tier string) HarnessDef {
+		return HarnessDef{ID: id, Tier: tier, Spec: HarnessSpec{Name: name, Pkg: "pkg/protocol", LoopBound: 40, LoopBounds: lb17, TimeoutS: 120, Par: 6, Redirects: rot},
+			What:   "multi-chunk encode/decode (real loops): every body length 1..4C+1 (case split), symbolic contents, padding bit and rotation; each chunk equals the documented bit-by-bit encoding under that chunk's mask, decode(encode(src)) == src, the codec passes (mask, rotation, chunk index) unchanged to the rotation",
+			Bounds: "N <= 4C+1 (5 chunks, last partial); per-chunk masks are 6 concrete repeated half masks of the mode's weight returned by a stub of rotateLowEntropyMask (contract decided by H17.4)", Outside: "bodies longer than 4C+1 bytes (only through the per-chunk argument); masks other than the table's in this harness (H17.3a covers every mask for one chunk)"}
+	}
+	rt1 := func(name, id string, tier string, to int) HarnessDef {
+		return HarnessDef{ID: id, Tier: tier, Spec: HarnessSpec{Name: name, Pkg: "pkg/protocol", LoopBound: 16, LoopBounds: lb17, TimeoutS: to, Par: 4},
+			What:   "single chunk, EVERY half mask of the mode's weight, real PDEP/PEXT loops: encoded chunk = documented bit-by-bit encoding; decode(encode(src)) == src; lengths 1..C",
+			Bounds: "one chunk (N <= C), all 2^32 half masks of the required weight, both padding bits, every valid rotation value", Outside: "chunk index > 0 is covered through H17.4 (every later mask is again a repeated half mask of the same weight)"}
+	}
 	reg("C17",
-		HarnessDef{ID: "H17.1a", Spec: HarnessSpec{Name: "vH_C17_pdepGeneric_rec", Pkg: "pkg/mathext", LoopBound: 64, TimeoutS: 240},
-			What:   "pdepGeneric satisfies the PDEP recursion on the lowest mask bit for all 2^128 (x,mask); its loop needs <= 64 iterations",
-			Bounds: "full 64-bit width, unwind 64 (unwinding assertion proved)", Outside: "equality with the SDM definition follows by a paper induction on popcount(mask)"},
+		mx("vH_C17_pdepGeneric_rec", "H17.1a", "pdepGeneric satisfies the PDEP recursion on the lowest mask bit (this defines PDEP)", 240),
+		mx("vH_C17_pextGeneric_p1", "H17.2a", "pextGeneric: PDEP(PEXT(x,m),m) == x&m", 400),
+		mx("vH_C17_pextGeneric_p2", "H17.2b", "pextGeneric: PEXT(x,m) < 2^popcount(m)", 240),
+		mx("vH_C17_pdepBMI2_rec", "H17.1b", "bit_amd64.s pdepBMI2 (parsed from the .s file, SDM semantics): same recursion", 240),
+		mx("vH_C17_pextBMI2_p1", "H17.2c", "bit_amd64.s pextBMI2: PDEP(PEXT(x,m),m) == x&m", 400),
+		mx("vH_C17_pextBMI2_p2", "H17.2d", "bit_amd64.s pextBMI2: PEXT(x,m) < 2^popcount(m)", 240),
+		mx("vH_C17_pdep_direct32", "H17.1c", "pdepGeneric == bit-by-bit PDEP for masks < 2^32 (induction-free cross-check)", 240),
+		mx("vH_C17_pext_direct32", "H17.2e", "pextGeneric == bit-by-bit PEXT for masks < 2^32", 240),
+		mx("vH_C17_pdep_go_eq_asm32", "H17.1d", "pdepGeneric == pdepBMI2 for masks < 2^32", 240),
+		mx("vH_C17_pext_go_eq_asm32", "H17.2f", "pextGeneric == pextBMI2 for masks < 2^32", 240),
+		HarnessDef{ID: "H17.4a", Spec: HarnessSpec{Name: "vH_C17_rotation", Pkg: "pkg/protocol", LoopBound: 300, LoopBounds: lb17, TimeoutS: 240},
+			What:   "lowEntropyChunkMask/rotateLowEntropyMask/isValidLowEntropyRotation: for all 256 rotation bytes x all 64 residues of the chunk index (concrete case split) x every half mask: validity = documented set; mask = initial mask rotated by i*R in R's direction; result is a repeated half mask of the same weight",
+			Bounds: "chunk index 0..16383 (>= the 8191 maximum), all 2^32 half masks", Outside: "-"},
+		HarnessDef{ID: "H17.4b", Spec: HarnessSpec{Name: "vH_C17_rotation_reject", Pkg: "pkg/protocol", LoopBound: 8, TimeoutS: 60},
+			What: "lowEntropyChunkMask errors exactly on invalid rotation values or negative chunk index", Bounds: "all int32 rotation values, all int chunk indices", Outside: "-"},
+		HarnessDef{ID: "H17.5", Spec: HarnessSpec{Name: "vH_C17_lenlaw", Pkg: "pkg/protocol", LoopBound: 8, TimeoutS: 120},
+			What: "lowEntropyEncodedPayloadLen(N, mode) == ceil(N/C)*8; error exactly for invalid mode, N <= 0 or more than 8191 chunks; no uint16 overflow", Bounds: "all 2^64 N, all int32 modes", Outside: "-"},
+		rtN("vH_C17_roundtripN_m32", "H17.3b-32", ""), rtN("vH_C17_roundtripN_m56", "H17.3b-56", ""),
+		rtN("vH_C17_roundtripN_m40", "H17.3b-40", "thorough"), rtN("vH_C17_roundtripN_m48", "H17.3b-48", "thorough"),
+		rt1("vH_C17_roundtrip1_m56", "H17.3a-56", "", 300),
+		rt1("vH_C17_roundtrip1_m32", "H17.3a-32", "thorough", 900), rt1("vH_C17_roundtrip1_m40", "H17.3a-40", "thorough", 900), rt1("vH_C17_roundtrip1_m48", "H17.3a-48", "thorough", 900),
+	)
+	reg("C14",
+		HarnessDef{ID: "H14.1a", Spec: HarnessSpec{Name: "vH_C14_fragment_arith", Pkg: "pkg/protocol", LoopBound: 8, TimeoutS: 120},
+			What:   "maxFragmentSize/maxFragmentSizeInternal/lowEntropyEncodedPayloadLen: fragment + overhead <= MTU, encoded length <= 65535, 32764 for mode 32 on TCP, <= 256 fragments per 32768-byte write",
+			Bounds: "MTU 1280..1500, both transports, all int32 modes", Outside: "MTUs outside the supported range"},
+		HarnessDef{ID: "H14.1b", Spec: HarnessSpec{Name: "vH_C14_padding_arith", Pkg: "pkg/protocol", LoopBound: 8, TimeoutS: 120},
+			What:   "maxPaddingSize/maxPaddingSizeWithTrafficPattern: 0..255, never pushes a datagram past the MTU, honours configured maxima (0 = none) in every nil/non-nil combination of the pattern",
+			Bounds: "MTU 1280..1500, fragment 0..65535, existing padding 0..255, all int32 maxima", Outside: "-"},
+	)
+	reg("C09",
+		HarnessDef{ID: "H9.4a", Spec: HarnessSpec{Name: "vH_C09_session_layout", Pkg: "pkg/protocol", LoopBound: 20, TimeoutS: 120},
+			What: "sessionStruct.Marshal emits the documented 32-byte layout for all field values; Unmarshal accepts every documented-valid layout and returns the fields", Bounds: "all field values; clock 2020..2100", Outside: "-"},
+		HarnessDef{ID: "H9.4b", Spec: HarnessSpec{Name: "vH_C09_dataack_layout", Pkg: "pkg/protocol", LoopBound: 20, TimeoutS: 120},
+			What: "dataAckStruct.Marshal emits the documented layout incl. the low entropy extension; Unmarshal round trip", Bounds: "all field values; clock 2020..2100", Outside: "-"},
+	)
+	reg("C11",
+		HarnessDef{ID: "H11.1-0", Spec: HarnessSpec{Name: "vH_C11_auth_nocred", Pkg: "pkg/socks5", LoopBound: 12, LoopBounds: map[string]int{"ReadAtLeast": 2}, TimeoutS: 120, Par: 4},
+			What:   "handleAuthentication on an arbitrary byte stream, no credentials configured: success only via method 0x00 with reply 05 00",
+			Bounds: "<= 6 offered methods, stream <= 19 bytes, full-size reads (chunking invariance of io.ReadFull is the standard library's)", Outside: "method lists longer than 6"},
+		HarnessDef{ID: "H11.1-1", Spec: HarnessSpec{Name: "vH_C11_auth_1cred", Pkg: "pkg/socks5", LoopBound: 12, LoopBounds: map[string]int{"ReadAtLeast": 2}, TimeoutS: 120, Par: 4},
+			What:   "handleAuthentication, one configured credential: success only after reply 05 02 and a presented user/password equal to it",
+			Bounds: "<= 6 methods, user/password <= 3 bytes, stream <= 19 bytes", Outside: "longer credentials (length bytes are symbolic, contents compared bytewise up to 3)"},
+		HarnessDef{ID: "H11.1-2", Spec: HarnessSpec{Name: "vH_C11_auth_2cred", Pkg: "pkg/socks5", LoopBound: 12, LoopBounds: map[string]int{"ReadAtLeast": 2}, TimeoutS: 120, Par: 4},
+			What: "same with two configured credentials", Bounds: "as H11.1-1", Outside: "as H11.1-1"},
 	)
 }
